@@ -116,7 +116,7 @@ def splitArrow (ws : List String) : List String × String :=
   (ws.takeWhile (· ≠ "=>"), " ".intercalate ((ws.dropWhile (· ≠ "=>")).drop 1))
 
 def parseOp (ws : List String) : Option (POp × Nat) :=
-  -- second component: the `from=` height of an upd op
+  -- second component: the scanned range of an upd op, encoded as `from * 1000 + to`
   match ws with
   | ["seedc", k, h] => do some (.op (.seedConf (← k.toNat?) (← h.toNat?)), 0)
   | ["seeds", k, h] => do some (.op (.seedSpend (← k.toNat?) (← h.toNat?)), 0)
@@ -126,15 +126,19 @@ def parseOp (ws : List String) : Option (POp × Nat) :=
   | "conn" :: h :: rest => do some (.op (.connect (← h.toNat?) (← parseBlock rest)), 0)
   | ["ntfy", h] => do some (.op (.notify (← h.toNat?)), 0)
   | ["disc", h] => do some (.op (.disconnect (← h.toNat?)), 0)
-  | ["updc", k, f, d] => do
+  | ["updc", k, f, t, d] => do
     let f ← kvNat? [f] "from"
+    let t ← kvNat? [t] "to"
+    let f := f * 1000 + t
     let k ← k.toNat?
     if d == "none" then some (.op (.updConf k none), f)
     else
       let (a, b, c) ← parseTriple d
       some (.op (.updConf k (some ⟨a, b, c⟩)), f)
-  | ["upds", k, f, d] => do
+  | ["upds", k, f, t, d] => do
     let f ← kvNat? [f] "from"
+    let t ← kvNat? [t] "to"
+    let f := f * 1000 + t
     let k ← k.toNat?
     if d == "none" then some (.op (.updSpend k none), f)
     else
@@ -197,7 +201,7 @@ structure MKey where
   active : Bool := false
   created : Nat := 0
   rescanDone : Bool := false
-  upds : List (Nat × Nat) := []
+  upds : List (Nat × Nat × Nat) := []
   hints : List Nat := []
   tainted : Bool := false
   hint : Option Nat := none
@@ -253,7 +257,7 @@ def Mon.inc (m : Mon) (conf : Bool) (k : Nat) : Option (Nat × Nat × Nat × Nat
 
 /-- must the notifier be aware of the inclusion at height `h` in a block connected at `tb`? -/
 def MKey.knows (k : MKey) (h tb : Nat) : Bool :=
-  k.active && (tb > k.created || k.upds.any (fun (tu, from_) => tu > tb && from_ ≤ h))
+  k.active && (tb > k.created || k.upds.any (fun (tu, from_, to_) => tu > tb && from_ ≤ h && h ≤ to_))
 
 /-- is the active chain valid (no tx twice, no outpoint spent twice)? -/
 def Mon.chainValid (m : Mon) : Bool :=
@@ -368,13 +372,17 @@ def monReg (s : St) (conf : Bool) (k n hint : Nat) : IO St := do
                 nextReg := m.nextReg + 1 }
   return { s with mon := m }
 
-/-- a historical rescan reported `claim` for the range starting at `s.opFrom` -/
+/-- a historical rescan reported `claim` for the range `[s.opFrom / 1000, s.opFrom % 1000]`.
+    The answer is truthful iff it is what the active chain says about that RANGE now: a
+    transaction confirmed later at tip, above the range, makes "not found" a truthful late answer. -/
 def monUpd (s : St) (conf : Bool) (k : Nat) (claim : Option (Nat × Nat × Nat)) : St :=
   let m := s.mon
   let mk := m.key conf k
   if mk.active then
+    let from_ := s.opFrom / 1000
+    let to_ := s.opFrom % 1000
     let truth := match m.inc conf k with
-      | some (ih, x, i, _) => if ih ≥ s.opFrom then some (ih, x, i) else none
+      | some (ih, x, i, _) => if ih ≥ from_ && ih ≤ to_ then some (ih, x, i) else none
       | none => none
     if truth != claim then
       { s with mon := m.setKey { mk with tainted := true, rescanDone := true } }
@@ -386,7 +394,7 @@ def monUpd (s : St) (conf : Bool) (k : Nat) (claim : Option (Nat × Nat × Nat))
       let orphan := match claim with
         | some c => if noClient && !wasKnown then some c.1 else mk.orphan
         | none => mk.orphan
-      { s with mon := m.setKey { mk with upds := (m.t, s.opFrom) :: mk.upds, rescanDone := true,
+      { s with mon := m.setKey { mk with upds := (m.t, from_, to_) :: mk.upds, rescanDone := true,
                                          orphan := orphan } }
   else s
 
